@@ -21,7 +21,7 @@ TEXT = {
     "C12": ("Input sweep of Problem.split executed through the multi-process simulation: original unchanged, parts differ in one domain, each part solved by a simulated worker under a step budget, disjoint union equals the reference.", "4/C12"),
     "C13": ("Seeded meaning-preserving rewrites of generated and shipped models; solution sets / optima equal after the inverse renaming. Metamorphic relations with seeded generation, replay and minimisation.", "4/C13"),
     "C15": ("Seeded operation histories in one interpreter compared with clean-room executions, in interpreted and compiled mode, twice; histories include reused problem objects, registrations, abandoned enumerations, dirty never-written memory, caller-owned parameter arrays refilled after construction, and models whose parameters and domain bounds approach 32 bits (where the two modes' integer widths differ).", "4/C15"),
-    "C16": ("Two bounds-checking executors under the same seeded workloads: interpreted mode (any exception from a NuCS frame on an in-contract simulated run is a violation; sizes biased to what scratch arrays are sized from) and the JIT-compiled engine built with numba's bounds checking in a sacrificial interpreter (index errors raised behind function addresses are collected through sys.unraisablehook; death by signal is an abort). Monitor-strength claim only.", "4/C16"),
+    "C16": ("Two bounds-checking executors under the same seeded workloads: interpreted mode (any exception from a NuCS frame on an in-contract simulated run is a violation; sizes biased to what scratch arrays are sized from; the worker-side loops of the multiprocessing solver through the simulated processes) and the JIT-compiled engine built with numba's bounds checking in a sacrificial interpreter (index errors raised behind function addresses are collected through sys.unraisablehook; death by signal is an abort). Monitor-strength claim only.", "4/C16"),
     "C17": ("Interposed event log of each simulated run; each of the 13 counters must equal the corresponding event count (every documented reading accepted), conservation laws for exhaustive enumeration; per-worker laws and sums through the simulated multiprocessing solver.", "4/C17"),
     "C18": ("Every (worker, death point, death kind) of bounded scenarios is enumerated in the process simulator, seeded sampling beyond; the parent call must return or raise within bounded virtual time - a SimDeadlock is the hang.", "4/C18"),
     "C19": ("Sweep of stack heights x required depths x heuristics x consistency algorithm and of sizes around 2^8/2^16, each point compiled in a sacrificial interpreter and interpreted: error/refusal or reference-equal result.", "4/C19"),
@@ -91,7 +91,7 @@ def main():
         "engines": [
             {"name": "e1", "path": "sim/families/e1_engine.py", "serves_properties": ["C01", "C02", "C03", "C04", "C07", "C08", "C09", "C10", "C16", "C17"], "kind_free_text": "engine-sim: generated model x configuration x posting order x wake order through the real BacktrackSolver (interpreted) with interposed monitors"},
             {"name": "e1c13", "path": "sim/families/e1_rewrite.py", "serves_properties": ["C13"], "kind_free_text": "metamorphic rewrites of generated/shipped models"},
-            {"name": "e2", "path": "sim/families/e2_mp.py", "serves_properties": ["C11", "C12", "C18", "C01", "C02", "C03", "C17"], "kind_free_text": "mp-sim: real MultiprocessingSolver over SimProcess/SimQueue with virtual clock, seeded deliveries, crashes, stalls, late pickles"},
+            {"name": "e2", "path": "sim/families/e2_mp.py", "serves_properties": ["C11", "C12", "C18", "C01", "C02", "C03", "C17", "C16"], "kind_free_text": "mp-sim: real MultiprocessingSolver over SimProcess/SimQueue with virtual clock, seeded deliveries, crashes, stalls, late pickles"},
             {"name": "e3", "path": "sim/families/e3_cpstack.py", "serves_properties": ["C09", "C07", "C16"], "kind_free_text": "cp-machine: random push/pop sequences on the real stack arrays vs reference stack"},
             {"name": "e4", "path": "sim/families/e4_history.py", "serves_properties": ["C15"], "kind_free_text": "history-sim: operation sequences vs clean-room, interpreted and compiled"},
             {"name": "e5", "path": "sim/families/e5_capacity.py", "serves_properties": ["C19"], "kind_free_text": "capacity-sim: compiled sacrificial subprocess sweep"},
